@@ -19,7 +19,7 @@ EXPLANATION = (
     "the caller's object, and construct_* contain no store into self; (R) rejection dominance - wrong lengths / shapes / element "
     "counts raise before any refill; (I) identity de-duplication - abstract run of _get_unique_idxs over "
     "[T0, T1, T0, T2, T1] gives ([0, 1, 3], [0, 1, 0, 2, 1]) and the inverse map is applied before refilling (aliased positions "
-    "stay aliased). NOT decided: exhaustive structure / aliasing enumeration, tuple handling.")
+    "stay aliased). (T2) containers that are both a list / dict and an object with an instance dictionary are traversed through the same view by both functions; NOT decided: exhaustive structure / aliasing enumeration, tuple handling.")
 ASSUMPTIONS = ["copy.deepcopy with a memo that maps id(t)->t shares exactly those tensors and copies everything else"]
 
 PACK = "xitorch/_core/packer.py"
